@@ -9,6 +9,7 @@ from ..core import AnalysisError, RuleSpec
 from ..pymodel import call_name
 from ..specs import lexical
 from .. import fsmx
+from .. import astq
 
 EXPLANATION = (
     "Exact regular-language reasoning (E2: derivative-based engine over the regex constants, parsed "
@@ -33,11 +34,10 @@ DOCMARKS = ["!", ">", "*", "|", "!!", "d:", "(", ".", "<<"]
 def r1_comment_recogniser(ctx, rep):
     py, rx = ctx.py, ctx.rx
     pat, flags, node, _ = ctx.regexes["FortranReader.COM_RE"]
-    m = re.fullmatch(r"\^\((?P<alts>.*)\)\*\(!\.\*\)\$", pat)
-    if not m:
-        raise AnalysisError(f"COM_RE no longer has the shape ^(prefix)*(!.*)$: {pat}")
-    prefix = f"(?:{m.group('alts')})*"
-    P = rx.full(prefix, flags)
+    try:
+        P, _tail = rx.split_at_group(pat, flags, 4)
+    except rx.Unsupported as e:
+        raise AnalysisError(f"COM_RE: the comment is no longer captured by a top-level group 4 ({e}): {pat}")
     R = rx.full(lexical.CODE_PREFIX, 0)
     w = rx.equiv_witness(P, R)
     rep.ob("COM_RE prefix == code-without-comment language", w is None,
@@ -60,9 +60,9 @@ def r1_comment_recogniser(ctx, rep):
     param = fn.args.args[0].arg
     fl = py.eval_flags(call[0].args[1] if len(call[0].args) > 1 else None)
     for mk in DOCMARKS:
-        p = py.eval_str(call[0].args[0], {param: mk})
+        p = py.eval_str(call[0].args[0], {**py.module_env("reader"), param: mk})
         if p is None:
-            raise AnalysisError("_compile_docmark: pattern is not an f-string over re.escape(docmark)")
+            raise AnalysisError("_compile_docmark: the pattern is not a constant expression of the marker")
         try:
             L = rx.full(p, fl or 0)
         except rx.Unsupported as e:
@@ -76,7 +76,10 @@ def r1_comment_recogniser(ctx, rep):
                f"(pattern {p!r})", py.nloc(call[0]), witness=w)
     # _match_docmark never matches inside an open literal
     md = py.func("reader._match_docmark")
-    ok = re.search(r"if in_quote:\s+return None", ast.unparse(md)) is not None
+    mev = astq.trace(md)
+    first = next((e for e in mev if e.kind in ("return", "call")), None)
+    ok = first is not None and first.kind == "return" and any(c == "in_quote" for c in first.cond_texts()) and \
+        (first.value is None or ast.unparse(first.value) == "None")
     rep.ob("_match_docmark is disabled inside an open literal", ok, "", py.nloc(md))
 
 
@@ -95,7 +98,7 @@ def r2_literal_recogniser(ctx, rep):
 def r3_scanners(ctx, rep):
     py = ctx.py
     fn = py.func("reader._contains_unterminated_string")
-    impl = fsmx.extract_unterminated(fn)
+    impl = fsmx.extract_unterminated(fn, py.module_env(py.module_of(fn)))
     w, n = fsmx.compare_acceptors(impl, fsmx.ref_unterminated())
     rep.ob("_contains_unterminated_string == 'ends inside a literal'", w is None,
            f"equivalent for strings of every length ({n} product states)" if w is None else
@@ -104,7 +107,7 @@ def r3_scanners(ctx, rep):
            f"comment stripping and doc recognition are switched off (or left on) for the next continued line",
            py.nloc(fn), witness=w)
     fq = py.func("utils.quote_split")
-    impl2 = fsmx.extract_quote_split(fq)
+    impl2 = fsmx.extract_quote_split(fq, py.module_env(py.module_of(fq)))
     w, n = fsmx.compare_quote_split(impl2)
     rep.ob("quote_split splits exactly at separators outside literals", w is None,
            f"equivalent for strings of every length ({n} product configurations)" if w is None else
@@ -112,7 +115,9 @@ def r3_scanners(ctx, rep):
     # the reader uses them as intended
     nx = py.func("FortranReader.__next__")
     t = ast.unparse(nx)
-    ok = "in_quote = _contains_unterminated_string(linebuffer)" in t and "quote_split(';', linebuffer)" in t
+    uq = [c for c in py.walk_calls(nx) if call_name(c).endswith("_contains_unterminated_string") and [ast.unparse(a) for a in c.args] == ["linebuffer"]]
+    qs = [c for c in py.walk_calls(nx) if call_name(c).endswith("quote_split") and [ast.unparse(a) for a in c.args[:2]] == ["';'", "linebuffer"]]
+    ok = bool(uq) and bool(qs)
     rep.ob("reader uses the scanners on the joined buffer", ok, "", py.nloc(nx))
 
 
@@ -170,35 +175,93 @@ def r4_masking(ctx, rep):
 
 
 def r5_continuation(ctx, rep):
+    """Decided on the condition-annotated event trace of FortranReader.__next__: what is assigned to the piece being
+    joined on the path 'starts with & and the previous piece was continued' and on the path 'ends with &'."""
     py = ctx.py
     fn = py.func("FortranReader.__next__")
-    amp = [n for n in ast.walk(fn) if isinstance(n, ast.If) and ast.unparse(n.test) == "line[0] == '&'"]
-    if len(amp) != 1:
-        raise AnalysisError("reader: `if line[0] == '&'` not found")
-    a = amp[0]
-    cont = [n for n in a.body if isinstance(n, ast.If) and ast.unparse(n.test) == "continued"]
-    if not cont:
-        raise AnalysisError("reader: `if continued:` branch not found")
-    assigns = [s for s in ast.walk(cont[0]) if isinstance(s, ast.Assign) and ast.unparse(s.targets[0]) == "line"
-               and s in cont[0].body]
-    ok = len(assigns) == 1 and ast.unparse(assigns[0].value) == "line[1:]"
-    rep.ob("leading & : exactly that one character is removed", ok,
-           "the continued text is appended verbatim after the leading &" if ok else
-           f"`line = {ast.unparse(assigns[0].value) if assigns else '?'}`: more than the leading & is removed, so a "
-           f"character literal continued as `'abc&` / `& def'` loses the blanks after the &", py.nloc(a))
-    ok = re.search(r"else:\s+raise ValueError", ast.unparse(a)) is not None
-    rep.ob("a leading & without a continued line is an error", ok, "", py.nloc(a))
-    ok = ast.unparse(a.orelse[0]) == "linebuffer = linebuffer.strip() + ' '" if a.orelse else False
-    rep.ob("no leading & : pieces are joined with a single blank", ok, "", py.nloc(a))
-    trail = [n for n in ast.walk(fn) if isinstance(n, ast.If) and ast.unparse(n.test) == "line[-1] == '&'"]
-    ok = len(trail) == 1 and "line = line[0:-1]" in ast.unparse(trail[0]) and "continued = True" in ast.unparse(trail[0]) \
-        and "continued = False" in ast.unparse(trail[0])
-    rep.ob("trailing & : exactly that one character is removed", ok, "", py.nloc(trail[0]) if trail else py.nloc(fn))
-    t = ast.unparse(fn)
-    ok = "self.pending.extend([s.strip() for s in frags if len(s) > 0])" in t
+    ev = astq.trace(fn)
+    V = "line"
+
+    def pos_tests(e):
+        return [t for t, pol, _ in e.conds if pol]
+
+    def neg_tests(e):
+        return [t for t, pol, _ in e.conds if not pol]
+
+    def lead(t):
+        return astq.tests_first_char(t, V, "&")
+
+    def trail(t):
+        return astq.tests_last_char(t, V, "&")
+
+    def only(t, name):
+        return isinstance(t, ast.Name) and t.id == name
+
+    def is_slice(v: ast.AST, lo, hi) -> bool:
+        """v is line[lo:hi] (None = open end; 0 and None are the same lower bound)"""
+        if not (isinstance(v, ast.Subscript) and isinstance(v.value, ast.Name) and v.value.id == V and isinstance(v.slice, ast.Slice)):
+            return False
+        lower = None if v.slice.lower is None else ast.literal_eval(v.slice.lower) if isinstance(v.slice.lower, (ast.Constant, ast.UnaryOp)) else "?"
+        upper = None if v.slice.upper is None else ast.literal_eval(v.slice.upper) if isinstance(v.slice.upper, (ast.Constant, ast.UnaryOp)) else "?"
+        return (lower or None) == (lo or None) and upper == hi and v.slice.step is None
+
+    # --- leading &
+    le = [e for e in ev if e.kind == "assign" and e.target == V and any(lead(t) for t in pos_tests(e)) and any(only(t, "continued") for t in pos_tests(e))]
+    le += [e for e in ev if e.kind == "assign" and e.target == V and any(lead(t.operand) for t in neg_tests(e) if isinstance(t, ast.UnaryOp) and isinstance(t.op, ast.Not))
+           and any(only(t, "continued") for t in pos_tests(e)) and e not in le]
+    if not le:
+        raise AnalysisError("reader: no assignment to the piece on the path 'starts with & and continued'")
+    for e in le[:1]:
+        ok = is_slice(e.value, 1, None) or (isinstance(e.value, ast.Call) and call_name(e.value) == f"{V}.removeprefix"
+                                            and [ast.unparse(a) for a in e.value.args] == ["'&'"])
+        rep.ob("leading & : exactly that one character is removed", ok,
+               "the continued text is appended verbatim after the leading &" if ok else
+               f"`line = {ast.unparse(e.value)}`: more than the leading & is removed, so a "
+               f"character literal continued as `'abc&` / `& def'` loses the blanks after the &", py.nloc(e.node))
+    def leads(e):
+        return any(lead(t) for t in pos_tests(e)) or any(isinstance(t, ast.UnaryOp) and isinstance(t.op, ast.Not) and lead(t.operand) for t in neg_tests(e))
+
+    def not_leads(e):
+        return any(lead(t) for t in neg_tests(e)) or any(isinstance(t, ast.UnaryOp) and isinstance(t.op, ast.Not) and lead(t.operand) for t in pos_tests(e))
+    err = [e for e in ev if e.kind == "raise" and leads(e) and any(only(t, "continued") for t in neg_tests(e))]
+    rep.ob("a leading & without a continued line is an error", bool(err), "", py.nloc(err[0].node) if err else py.nloc(fn))
+    nb = [e for e in ev if e.kind == "assign" and e.target == "linebuffer" and not_leads(e)]
+    ok = bool(nb) and isinstance(nb[0].value, ast.BinOp) and isinstance(nb[0].value.op, ast.Add) and \
+        ast.unparse(nb[0].value.left) in ("linebuffer.strip()", "linebuffer.rstrip()") and ast.unparse(nb[0].value.right) == "' '"
+    rep.ob("no leading & : pieces are joined with a single blank", ok, "", py.nloc(nb[0].node) if nb else py.nloc(fn))
+    # --- trailing &
+    flag_from_test = [e for e in ev if e.kind == "assign" and e.target == "continued" and e.value is not None and trail(e.value)]
+    te = [e for e in ev if e.kind == "assign" and e.target == V and (any(trail(t) for t in pos_tests(e)) or
+                                                                    (flag_from_test and any(only(t, "continued") for t in pos_tests(e))
+                                                                     and not any(lead(t) for t in pos_tests(e))))]
+    te = [e for e in te if e not in le]
+    sets_true = flag_from_test or [e for e in ev if e.kind == "assign" and e.target == "continued" and any(trail(t) for t in pos_tests(e))
+                                   and ast.unparse(e.value) == "True"]
+    sets_false = flag_from_test or [e for e in ev if e.kind == "assign" and e.target == "continued" and any(trail(t) for t in neg_tests(e))
+                                    and ast.unparse(e.value) == "False"]
+    ok = len(te) == 1 and (is_slice(te[0].value, None, -1) or (isinstance(te[0].value, ast.Call) and call_name(te[0].value) == f"{V}.removesuffix")) \
+        and bool(sets_true) and bool(sets_false)
+    rep.ob("trailing & : exactly that one character is removed", ok,
+           "" if ok else f"trailing-& handling: piece assignments {[ast.unparse(e.node) for e in te]}, continued set on both paths: "
+           f"{bool(sets_true) and bool(sets_false)}", py.nloc(te[0].node) if te else py.nloc(fn))
+    # --- `;` splitting
+    ext = [c for c in py.walk_calls(fn) if isinstance(c.func, ast.Attribute) and c.func.attr == "extend" and ast.unparse(c.func.value) == "self.pending"]
+    ok = False
+    for c in ext:
+        for n in ast.walk(c):
+            if isinstance(n, (ast.ListComp, ast.GeneratorExp)) and len(n.generators) == 1:
+                g = n.generators[0]
+                strips = isinstance(n.elt, ast.Call) and isinstance(n.elt.func, ast.Attribute) and n.elt.func.attr == "strip"
+                nonempty = any(ast.unparse(i) in (f"len({ast.unparse(g.target)}) > 0", ast.unparse(g.target), f"len({ast.unparse(g.target)})",
+                                                  f"{ast.unparse(g.target)} != ''") for i in g.ifs)
+                src = [x for x in astq.expand_locals(g.iter, fn)]
+                split = any(isinstance(q, ast.Call) and call_name(q).endswith("quote_split") and q.args and ast.unparse(q.args[0]) == "';'"
+                            for x in src for q in ast.walk(x))
+                ok = ok or (strips and nonempty and split)
     rep.ob("`;` fragments are stripped and empty ones dropped", ok, "", py.nloc(fn))
-    ok = "linebuffer += line" in t
-    rep.ob("pieces accumulate in linebuffer", ok, "", py.nloc(fn), nontrivial=False)
+    acc = [e for e in ev if e.kind == "assign" and e.target == "linebuffer" and isinstance(e.node, ast.AugAssign) and ast.unparse(e.value) == V]
+    acc += [e for e in ev if e.kind == "assign" and e.target == "linebuffer" and ast.unparse(e.value) in (f"linebuffer + {V}",)]
+    rep.ob("pieces accumulate in linebuffer", bool(acc), "", py.nloc(fn), nontrivial=False)
 
 
 def r6_masking_cursor(ctx, rep):
